@@ -230,17 +230,102 @@ Arguments s_iter {QI St}. Arguments s_resolve {QI St}. Arguments s_last {QI St}.
 Arguments s_queue {QI St}. Arguments s_ehist {QI St}. Arguments s_rest {QI St}.
 Arguments Done {QI St}. Arguments Raised {QI St}. Arguments OutOfFuel {QI St}.
 
-(* laws a queue implementation has to satisfy for the resume theorem (EventQueue satisfies them
-   whenever heapq keeps its invariant: that is property C11) *)
-Record queue_laws (QI : queue_impl) : Prop := {
-  ql_pop_rest : forall t q evs q', q_pop QI t q = (evs, q') ->
+(* ------------------------------------------------------------------------------------------ *)
+(* the loop body as regenerated text: an interpreter for Gen/Serial.run_loop_prog              *)
+(* ------------------------------------------------------------------------------------------ *)
+Section Prog.
+  Variable QI : queue_impl.
+  Variables St Sched : Type.
+  Variable N : rest_ops St Sched.     (* only net_plugin / net_unplug / rec_ev are used *)
+  (* an opaque statement of the loop body: its text, _iteration, new_schedule (inside the `if`
+     block only), event_queue.get_last_timestamp(), the rest of the state *)
+  Variable SS : string -> Z -> option Sched -> option Z -> St -> St.
+  Variable sched : sim QI St -> Sched.
+
+  Definition rest_texts (g : bool) (prog : list (bool * run_stmt)) : list string :=
+    flat_map (fun p => match p with
+                       | (g', RS_rest t) => if Bool.eqb g g' then [t] else []
+                       | _ => []
+                       end) prog.
+
+  (* the operations of the hand-written loop (section Loop) that correspond to the opaque
+     statements: those inside the `if` block form apply_sched, the others period_step *)
+  Definition R_of : rest_ops St Sched :=
+    {| net_plugin := net_plugin N; net_unplug := net_unplug N; rec_ev := rec_ev N;
+       apply_sched := fun i sch last st =>
+         fold_left (fun st t => SS t i (Some sch) last st) (rest_texts true run_loop_prog) st;
+       period_step := fun i last st =>
+         fold_left (fun st t => SS t i None last st) (rest_texts false run_loop_prog) st |}.
+
+  (* local state of one loop iteration *)
+  Record loc : Type := {
+    c_sim : sim QI St; c_cur : list event (* current_events *); c_due : bool; c_sch : option Sched (* new_schedule *) }.
+  Definition loc0 (s : sim QI St) : loc := {| c_sim := s; c_cur := []; c_due := false; c_sch := None |}.
+  Definition set_sim (s : sim QI St) (l : loc) : loc :=
+    {| c_sim := s; c_cur := c_cur l; c_due := c_due l; c_sch := c_sch l |}.
+
+  Definition exec1 (crash g : bool) (l : loc) (st : run_stmt) : loc + sim QI St :=
+    let s := c_sim l in
+    match st with
+    | RS_pop => let '(evs, q') := q_pop QI (s_iter s) (s_queue s) in
+                inl {| c_sim := with_queue QI St q' s; c_cur := evs; c_due := c_due l; c_sch := c_sch l |}
+    | RS_process => inl (set_sim (fold_left (handle_event QI St Sched R_of) (c_cur l) s) l)
+    | RS_test_due => inl {| c_sim := s; c_cur := c_cur l; c_due := recompute_due QI St s; c_sch := c_sch l |}
+    | RS_call => if crash then inr s
+                 else inl {| c_sim := s; c_cur := c_cur l; c_due := c_due l; c_sch := Some (sched s) |}
+    | RS_set_last_iter => inl (set_sim (with_last QI St (Some (s_iter s)) s) l)
+    | RS_set_resolve b => inl (set_sim (with_resolve QI St b s) l)
+    | RS_rest t => inl (set_sim (with_rest QI St (SS t (s_iter s) (if g then c_sch l else None)
+                                                    (q_last QI (s_queue s)) (s_rest s)) s) l)
+    | RS_inc_iter => inl (set_sim (with_iter QI St (Run_next_iteration (s_iter s)) s) l)
+    end.
+
+  Fixpoint exec (prog : list (bool * run_stmt)) (crash : bool) (l : loc) : loc + sim QI St :=
+    match prog with
+    | [] => inl l
+    | (g, st) :: rest =>
+        if g && negb (c_due l) then exec rest crash l
+        else match exec1 crash g l st with
+             | inl l' => exec rest crash l'
+             | inr s => inr s
+             end
+    end.
+
+  Fixpoint run_prog (guard : bool -> bool -> bool) (fuel : nat) (crash : option nat) (s : sim QI St)
+    : outcome QI St :=
+    match fuel with
+    | O => OutOfFuel s
+    | S f =>
+        if guard (s_resolve s) (q_empty QI (s_queue s)) then
+          match exec run_loop_prog (match crash with Some O => true | _ => false end) (loc0 s) with
+          | inr s1 => Raised s1
+          | inl l => run_prog guard f (match c_sch l, crash with
+                                       | Some _, Some (S k) => Some k
+                                       | _, c => c
+                                       end) (c_sim l)
+          end
+        else Done s
+    end.
+End Prog.
+
+(* laws a queue implementation has to satisfy for the resume theorem, relative to an invariant
+   `inv` of the representation (for EventQueue: the heap invariant of `_queue`; that heapq keeps it
+   and that these laws follow from it is property C11) *)
+Record queue_laws (QI : queue_impl) (inv : Qt QI -> Prop) : Prop := {
+  ql_pop_inv : forall t q evs q', inv q -> q_pop QI t q = (evs, q') -> inv q';
+  ql_push_inv : forall e q, inv q -> inv (q_push QI e q);
+  (* get_current_events(t) leaves exactly later events, all of them from the queue ... *)
+  ql_pop_rest : forall t q evs q', inv q -> q_pop QI t q = (evs, q') ->
                   Forall (fun e => t < e_ts e) (q_elems QI q') /\ incl (q_elems QI q') (q_elems QI q);
-  ql_pop_evs : forall t q evs q', q_pop QI t q = (evs, q') ->
+  (* ... and returns due events of the queue *)
+  ql_pop_evs : forall t q evs q', inv q -> q_pop QI t q = (evs, q') ->
                   Forall (fun e => e_ts e <= t /\ In e (q_elems QI q)) evs;
-  ql_pop_none : forall t q, Forall (fun e => t < e_ts e) (q_elems QI q) -> q_pop QI t q = ([], q);
-  ql_pop_nil : forall t q q', q_pop QI t q = ([], q') -> q' = q;
-  ql_push_elems : forall e q, incl (q_elems QI (q_push QI e q)) (e :: q_elems QI q);
-  ql_push_nonempty : forall e q, q_empty QI (q_push QI e q) = false
+  (* nothing due: nothing returned, queue untouched *)
+  ql_pop_none : forall t q, inv q -> Forall (fun e => t < e_ts e) (q_elems QI q) -> q_pop QI t q = ([], q);
+  ql_pop_nil : forall t q q', inv q -> q_pop QI t q = ([], q') -> q' = q;
+  (* add_event adds one event *)
+  ql_push_elems : forall e q, inv q -> incl (q_elems QI (q_push QI e q)) (e :: q_elems QI q);
+  ql_push_nonempty : forall e q, inv q -> q_empty QI (q_push QI e q) = false
 }.
 
 (* ------------------------------------------------------------------------------------------ *)
